@@ -54,6 +54,7 @@ import CtyModel.Lemmas.d16MarshalLemmas
 import CtyModel.Lemmas.d16KnownLen
 import CtyModel.Props.C08
 import CtyModel.Generated.Limits
+import CtyModel.Lemmas.MpUnknownFnsTie
 namespace CtyModel
 namespace C16
 open Msgpack Refine
@@ -599,6 +600,44 @@ example : Fits E0 (.object ["a", "b"] [.string, .number] [true, false])
 example : (Num.fin false 1 200 8).isInt = true ∧ wholeFits (.fin false 1 200 8) = true := by decide
 example : (Num.fin false 1 63 64).toInt? = some 9223372036854775808 := by decide
 example : (Num.toF64 (.fin false 3 (-1) 512)).2 = true ∧ (Num.fin false 3 (-1) 512).toInt? = none := by decide
+
+/-! ## The regenerated model (cty/msgpack/unknown.go, translated on every check)
+
+`Generated.MpUnknownFns.marshalUnknownValue` is the Lean text that `extract/translate_mpunknown.go`
+derives from the SOURCE of `marshalUnknownValue` on every run of `./check` (statement by statement;
+given API: `CtyModel/MpGo.lean`).  `Lemmas/MpUnknownFnsTie.lean` proves it equal to the hand-written
+`Msgpack.marshalUnknown`, so the refinement theorems above hold of what the source says now; an edit
+of the Go function that changes which key is written under which guard breaks these theorems. -/
+
+/-- What the translated `marshalUnknownValue` writes into an empty encoder, read back as one item, is
+what the hand-written `marshalUnknown` answers — for every type and every refinement record. -/
+theorem marshal_unknown_generated (E : Ext) (vt : Ty) (r : Rfn) :
+    (Generated.MpUnknownFns.marshalUnknownValue E ⟨vt, r⟩ []).bind MpGo.assemble = marshalUnknown E vt r :=
+  MpUnknownFnsTie.marshalUnknownValue_eq E vt r
+
+/-- `unknown_refinement_kept_partial`, about the regenerated encoder: the tokens the translated
+`marshalUnknownValue` writes form one extension item, which decodes to an unknown value of the same
+type carrying the original refinement as the wire format keeps it. -/
+theorem unknown_refinement_kept_partial_generated (E : Ext) (vt : Ty) (r : Rfn) (hd : vt.isDyn = false)
+    (h : rfnOK E vt r = true) :
+    ∃ toks it r', Generated.MpUnknownFns.marshalUnknownValue E ⟨vt, r⟩ [] = .ok toks ∧ MpGo.assemble toks = .ok it ∧
+      unmarshal E it vt = .ok ⟨vt, .unk r'⟩ ∧ Weaker vt r' r ∧ RfnKeptE E r' r := by
+  obtain ⟨it, r', hm, hu, hw, hk⟩ := unknown_refinement_kept_partial E vt r hd h
+  have ht := marshal_unknown_generated E vt r
+  rw [hm] at ht
+  cases hg : Generated.MpUnknownFns.marshalUnknownValue E ⟨vt, r⟩ [] with
+  | ok toks => rw [hg] at ht; exact ⟨toks, it, r', rfl, ht, hu, hw, hk⟩
+  | err c => rw [hg] at ht; cases ht
+  | panic w => rw [hg] at ht; cases ht
+  | unmodelled => rw [hg] at ht; cases ht
+
+/-- The regenerated encoder never panics and never fails on its own: with a `SafeKnownPrefix` oracle that
+answers, it writes either the 3-byte plain unknown or one extension item of type 12
+(`marshal_never_panics`, about the regenerated definition). -/
+theorem marshal_unknown_never_panics_generated (E : Ext) (vt : Ty) (r : Rfn) (w : String) :
+    (Generated.MpUnknownFns.marshalUnknownValue E ⟨vt, r⟩ []).bind MpGo.assemble ≠ .panic w := by
+  rw [marshal_unknown_generated]
+  exact marshalUnknown_no_panic E vt r w
 
 end C16
 end CtyModel
